@@ -124,7 +124,7 @@ class BaseCalibration:
 
     def get_mean_sf(self, flb, fub, level, attenuation=0):
         frequencies = np.arange(flb, fub)
-        sf = self.get_sf(frequencies, level).mean(axis=0)
+        sf = self.get_sf(frequencies, level, attenuation).mean(axis=0)
         if np.isnan(sf):
             raise ValueError('Requested range has some uncalibrated frequencies')
         return sf
@@ -239,7 +239,7 @@ class FlatCalibration(BaseCalibration):
         return sens
 
     def get_mean_sf(self, flb, fub, spl, attenuation=0):
-        return self.get_sf(flb, spl)
+        return self.get_sf(flb, spl, attenuation)
 
 
 class BaseFrequencyCalibration(BaseCalibration):
